@@ -4,6 +4,8 @@ import itertools
 import json
 import random
 
+import numpy as np
+
 from .. import scenario, targets as T
 from ..monitors import CoherenceMon
 from ..oracles import run_postconditions
@@ -142,6 +144,11 @@ INVALID = [
     ("n_particles=0 with clustering off", dict(n_particles=0, clustering=False)), ("sample='hmc' with resample='syst'", dict(sample="hmc", resample="syst")),
     ("resample='xyz' with sample='rwm'", dict(resample="xyz", sample="rwm")), ("vectorize+blobs with pool", dict(vectorize=True, blobs_dtype="float64", pool=2)),
     ("n_dim=0 with n_particles=8", dict(n_dim=0, n_particles=8)), ("periodic index = n_dim with reflective=[]", dict(periodic=[2], reflective=[])),
+    # the same invalid values arriving as NumPy scalars (what arithmetic on arrays hands back): np.float64(16.5) is not an int either
+    ("n_particles=np.float64(16.5)", dict(n_particles=np.float64(16.5))), ("n_particles=np.float32(24.25)", dict(n_particles=np.float32(24.25))), ("n_dim=np.float64(2.5)", dict(n_dim=np.float64(2.5))),
+    ("n_particles=np.int64(0)", dict(n_particles=np.int64(0))), ("n_dim=np.int64(-1)", dict(n_dim=np.int64(-1))),
+    ("ess_ratio=np.float64(0)", dict(ess_ratio=np.float64(0.0))), ("ess_ratio=np.float64(-1)", dict(ess_ratio=np.float64(-1.0))), ("volume_variation=np.float64(-0.5)", dict(volume_variation=np.float64(-0.5))),
+    ("periodic index np.int64(2) = n_dim", dict(periodic=[np.int64(2)])), ("reflective index np.float64(1.5)", dict(reflective=[np.float64(1.5)])),
 ]
 
 
